@@ -114,8 +114,15 @@ def parse_perm(line):
     i = 1
     while i < len(parts) and parts[i] not in ("calls", "ops"):
         form, _, out = parts[i].partition(" => ")
+        cnt = (0, 0)
+        if form.startswith("["):
+            c, _, form = form.partition("] ")
+            try:
+                cnt = tuple(int(x) for x in c[1:].split(","))
+            except ValueError:
+                cnt = (0, 0)
         f = out.split(" ;; ")
-        res["classes"].append((form, f[0], f[1] if len(f) > 1 else "", f[2] if len(f) > 2 else ""))
+        res["classes"].append((form, f[0], f[1] if len(f) > 1 else "", f[2] if len(f) > 2 else "", cnt))
         i += 1
     if i < len(parts) and parts[i] == "ops":
         i += 1
@@ -200,6 +207,9 @@ def explore(ctx, drv, model, cases, stats, search=False):
         if p["oracle"]:
             noncanon = any(c[3].startswith("0:") for c in p["classes"])
             cls = classify(op, [c[1] for c in p["classes"]], noncanon) if p["oracle"] == "nonunique" else "eq-but-different-dump"
+            # all pairwise groupings agree with each other but the n-ary call gives something else
+            if p["oracle"] == "nonunique" and sum(1 for c in p["classes"] if c[4][0] > 0) == 1 and any(c[4][0] == 0 for c in p["classes"]):
+                cls += ":nary-differs-from-pairwise"
             forms = ["%s = %s" % (A.subst_form(c[0], operands), c[1][:160]) for c in p["classes"][:3]]
             ctx.violation("C04/nonunique:%s:%s" % (op, cls),
                           "%d orders/groupings of the operands {%s} under %s give %d different results: %s" % (
@@ -254,8 +264,8 @@ def replay(ctx, rep):
         return
     print("constructions: %d, distinct results: %d" % (p["n"], p["nclasses"]))
     operands = case.split(" ;; ")[1:]
-    for form, d, h, lc in p["classes"]:
-        print("  %s\n      = %s   (hash %s, library is_canonical %s)" % (A.subst_form(form, operands), d, h, lc))
+    for form, d, h, lc, cnt in p["classes"]:
+        print("  %s   [%d pairwise, %d n-ary constructions]\n      = %s   (hash %s, library is_canonical %s)" % (A.subst_form(form, operands), cnt[0], cnt[1], d, h, lc))
     mo = A.model_calls(ctx, model, p["calls"])
     for c in p["calls"]:
         print("  call %s\n      impl  %s\n      model %s" % (A.call_text(c), c.res, mo.get(c.key)))
